@@ -87,3 +87,28 @@ Fixpoint innermost (parent : denv) (t : dtree) : list (option nat) :=
       map (fun n => match dlookup defs n with Some i => Some i | None => dlookup parent n end) uses
       ++ flat_map (innermost e) subs
   end.
+
+(* ---------------------------------------------------------------------------------------------------------------
+   Fragment.prepare and the user's own fragments (hdl/_ir.py).  Propagation MUTATES the fragments it visits
+   (`subfrag.add_domains`); a fragment object the user holds (an Instance, a hand-built Fragment) is part of every
+   hierarchy it is elaborated into AS IT IS, so what one preparation leaves in it is seen by the next one.  Since the
+   repair of finding C09-prepare-leaves-propagated-domains, prepare records every (fragment, name) it adds and deletes
+   exactly those entries (`del fragment.domains[name]`) when it is done.
+
+   `added own parent`   : the names propagation adds to a fragment whose own table is `own`
+   `del_names ns e`     : `del e[n]` for each n in ns
+   `after_prepare`      : the table the user's fragment holds after one preparation (repaired code)
+   `after_prepare_leaky`: the same before the repair — the merged table stays *)
+Definition added (own parent : denv) : list nat :=
+  map fst (filter (fun kv => match dlookup own (fst kv) with Some _ => false | None => true end) parent).
+
+Definition del_names (ns : list nat) (e : denv) : denv :=
+  filter (fun kv => negb (existsb (Nat.eqb (fst kv)) ns)) e.
+
+Definition after_prepare (own parent : denv) : denv := del_names (added own parent) (dmerge own parent).
+Definition after_prepare_leaky (own parent : denv) : denv := dmerge own parent.
+
+(* the table a user-held fragment is given by a SECOND preparation under a parent whose (auto-created) domains are
+   new objects `parent2`, after a first one under `parent1` *)
+Definition second_table (own parent1 parent2 : denv) : denv := dmerge (after_prepare own parent1) parent2.
+Definition second_table_leaky (own parent1 parent2 : denv) : denv := dmerge (after_prepare_leaky own parent1) parent2.
